@@ -500,7 +500,8 @@ fn date_one(s: &mut Stats, ts: i64) {
 
 pub fn run(mut cx: Ctx) -> ! {
     cx.rule = "each primitive is run on its whole bounded domain (SHA-1: all lengths 0..1100 x 3 contents + 2^k-1,2^k,2^k+1; Base64: all 2^24+2^16+2^8 inputs of <=3 bytes encoded and decoded back, every 4-symbol group over alphabet+'='+illegal decoded, odd lengths, misplaced padding; percent: every byte and byte pair, all strings <=5 over 9 symbols; dates: every day 1970..9999 at 00:00:00 and 23:59:59 + every second of 7 days) and compared with an independent reference; states = distinct inputs, transitions = calls of the real primitive; non-trivial = all except inputs the reference rejects".into();
-    let quick = cx.quick();
+    // the whole domain costs two seconds: both tiers run it
+    let quick = false;
     match crosscheck_with_cpython() {
         Ok(n) => {
             cx.extra.insert("reference_vs_cpython_cases".into(), json!(n));
